@@ -471,7 +471,10 @@ impl Prop for C11 {
         let ctx = sink.ctx.clone();
         let seq = c11_seq_space(&ctx);
         if b < seq.blocks.len() {
-            c11_run_seq_block(&ctx, seq.blocks[b], sink, &c11_seq_judge);
+            // single-threaded histories have nothing for the race detector
+            if ctx.leg != crate::driver::Leg::Tsan {
+                c11_run_seq_block(&ctx, seq.blocks[b], sink, &c11_seq_judge);
+            }
             return;
         }
         let sb = c11_sched_blocks(&ctx);
